@@ -971,7 +971,61 @@ class Exec(Engine):
         return self.bind(self.ev(node.test, st), after)
 
     def ev_ListComp(self, node, st):
-        raise Unsupported('list comprehension', node)
+        """`[f(x, ...) for x in xs]` where f is under a (non-inline) contract.  The callee's precondition is proved
+        for an arbitrary element in an arbitrary state reachable through the callee's frame (havoc before the
+        generic call), its frame is havocked again afterwards (any number of further calls) and the result is a
+        fresh list of len(xs) items of the callee's return type whose contents are left unconstrained."""
+        if len(node.generators) != 1 or node.generators[0].ifs or node.generators[0].is_async or \
+                not isinstance(node.generators[0].target, ast.Name) or not isinstance(node.elt, ast.Call):
+            raise Unsupported('list comprehension (only [f(x, ...) for x in xs])', node)
+        gen = node.generators[0]
+        var = gen.target.id
+        res = []
+        its = []
+        for s_, xs_ in self.ev(gen.iter, st):
+            its.extend(self.umap(s_, xs_, lambda s__, v__: [(s__, v__)], node))
+        for s, xs in its:
+            if isinstance(xs, VNone):
+                self.prove(s, FALSE, 'aorte', node, "TypeError: 'NoneType' object is not iterable")
+                continue
+            if not isinstance(xs, VList):
+                raise Unsupported('list comprehension over a non-list', node)
+            n = self.list_len(s, xs)
+            k = fresh_int('lc')
+            had = var in s.frame.loc
+            saved = s.frame.loc.get(var)
+            # which contract does the element expression call?
+            s.frame.loc[var] = self.list_get(s, xs, k)
+            c, fr = self.contract_frame_for_call(s, node.elt)
+            if had:
+                s.frame.loc[var] = saved
+            else:
+                s.frame.loc.pop(var, None)
+            if c.callback or c.ghost_update:
+                raise Unsupported('list comprehension over a callee with callbacks', node)
+            RT = parse_type(c.returns)
+            s0 = s.fork()
+            s0.assume(n == 0)
+            s1 = s
+            s1.assume(n >= 1)
+            if s.spec or self.feasible(s1):
+                s1.assume(AND(k >= 0, k < n))
+                s1.frame.loc[var] = self.list_get(s1, xs, k)
+                self.havoc_frame(s1, c, fr, node)
+                for s2, rv in self.ev(node.elt, s1):
+                    c2, fr2 = self._last_contract_call
+                    self.havoc_frame(s2, c2, fr2, node)
+                    if had:
+                        s2.frame.loc[var] = saved
+                    else:
+                        s2.frame.loc.pop(var, None)
+                    l = self.new_list(s2, RT, [], node)
+                    self.fresh_list_contents(s2, l)
+                    s2.assume(self.list_len(s2, l) == n)
+                    res.append((s2, l))
+            if s.spec or self.feasible(s0):
+                res.append((s0, self.new_list(s0, RT, [], node)))
+        return res
 
     def ev_JoinedStr(self, node, st):
         raise Unsupported('f-string', node)
